@@ -18,6 +18,13 @@ PKG=$(head -3 $SRC/seed_demo_test.go | grep -o '[a-z/]*' | grep -m1 -E '^(graphq
 [ -z "$PKG" ] && PKG=$(python3 -c "import json;print(json.load(open('$SRC/meta.json'))['files'][0].rsplit('/',1)[0])")
 PKG=${PKG%/}
 echo "demo package: $PKG"
+if [ -n "$SEEDCHECK_ONLY" ] && [ -f $SRC/confirmed.json ]; then
+  # re-run of an already confirmed seed: only the registered check against the patched tree
+  git -C $D apply $SRC/patch.diff || { echo "PATCH DOES NOT APPLY"; exit 3; }
+  VERIF_REPO=$D /verif/bin/vcheck $ID --tier $TIER --no-evidence > /tmp/sv-$NAME.check 2>&1; CHECK=$?
+  python3 /verif/seedrecord.py "$ID" "$TIER" "$NAME" "$CHECK"
+  exit 0
+fi
 cp $SRC/seed_demo_test.go $D/$PKG/seed_demo_test.go
 ( cd $D && go test -count=1 -run 'Seed' ./$PKG/ >/tmp/sv-$NAME.clean 2>&1 ); CLEAN=$?
 tail -2 /tmp/sv-$NAME.clean; echo "^ demo WITHOUT patch (must pass): exit $CLEAN"
